@@ -145,8 +145,12 @@ def run(tier):
             # shuffled dict insertion orders for the two quick families
             total += _family(out, "n4-self-unknown", tmp, 0, 1 << 20, cov,
                              insertion_seed=core.seed() + 1)
-            for lo in range(0, 1 << 25, 1 << 21):
-                total += _family(out, "n5-noself-unknown", tmp, lo, lo + (1 << 21), cov)
+            # every 4th of the 2^25 maps with an unknown name (offset by the seed): the full
+            # family needs about an hour on 16 idle cores
+            cov["exhaustive"] = False
+            for lo in range(0, 1 << 25, 1 << 22):
+                total += _family(out, "n5-noself-unknown", tmp, lo + core.seed() % 4,
+                                 lo + (1 << 22), cov, stride=4)
     finally:
         shutil.rmtree(tmp, ignore_errors=True)
     cov["evaluations"] = total
